@@ -588,7 +588,7 @@ def l2x_pairs() -> list:
     return [(i, j) for i in range(n) for j in range(i, n)]
 
 
-def run_l2x_pair(i: int, j: int, stats: Stats, viols: list, cap: int = 20000):
+def run_l2x_pair(i: int, j: int, stats: Stats, viols: list, cap: int = 3000):
     """ALL interleavings of two writers at the granularity the property names (switch points: each read of the target,
     each lock operation, the replace), by depth-first enumeration of the schedule tape."""
     ws = canon_writers(L2X_INIT)
